@@ -4,6 +4,8 @@
 //
 //	desc E A       empty|nonempty|fault          px.DescribeMismatch("x", E, A) == ""
 //	assert T V     ok|reported <CODE>|fault      px.AssertInstance("x", T, V)
+//	descs E A      the STRUCTURE of the description: one item (kind, path, payload) per reported mismatch — see descs.go
+//	descx E A K P  the same, with the mismatch the generator planted (kind K at path P)
 //
 // Predicates on the implementation: no panic; the description is empty exactly when px.IsAssignable(E, A); a non-empty
 // description names the subject it was given (evaluated a second time with the distinctive subject lat.Subject);
@@ -39,6 +41,9 @@ func exec(c px.Context, op string, args []sx.Sexp) core.Result {
 	}
 	if op == "sigs" {
 		return execSigs(c, args)
+	}
+	if op == "descs" || op == "descx" {
+		return execDescs(c, op, args)
 	}
 	if op != "desc" && op != "assert" {
 		return core.Result{Out: "bad-op", Pred: "FAIL harness-bad-op " + op}
@@ -251,5 +256,6 @@ func gen(g *core.G) {
 		g.Emit("@assert " + x + " " + lg.Val(1).String())
 	}
 	genSigs(g, lg)
+	genDescs(g, lg)
 	lat.GenTier2(g.Emit, g.Rng, "C19")
 }
